@@ -16,7 +16,9 @@ step  = {"k":"cell","mode":"cell"|"rt","stmts":[stmt]}            statements exe
   `await State.get_service_params()` until a "resume" step (the name State inside decorators/service.py is replaced by a
   stand-in whose get_service_params() waits for an asyncio.Event and then delegates to the real one)
       | {"k":"unload"}                                             hass.config_entries.async_unload(entry)
-stmt  = {"s":"def","slot":n,"gen":g,"spec":spec} | {"s":"del","slot":n} | {"s":"alias","dst":n,"src":m} | {"s":"none","slot":n}
+stmt  = {"s":"udef","slot":n,"gen":g,"spec":spec,"store":null|"l"|"d","key":k}   a user-written decorator dk_g whose inner
+        wrapper carries the trigger decorators; it optionally stores the wrapper it returns in lst / dct[k]; `@dk_g def fn`
+      | {"s":"def","slot":n,"gen":g,"spec":spec} | {"s":"del","slot":n} | {"s":"alias","dst":n,"src":m} | {"s":"none","slot":n}
       | {"s":"lnew","gen":g,"spec":spec} | {"s":"lslot","slot":n} | {"s":"lpop"} | {"s":"lclear"}
       | {"s":"dnew","key":k,"gen":g,"spec":spec} | {"s":"dslot","key":k,"slot":n} | {"s":"ddel","key":k}
 spec  = {"states":[[ident]], "events":[v], "times":[{"p":bool,"su":bool,"sd":bool}], "svc":null|name id, "pos":k}
@@ -96,6 +98,16 @@ def stmts_src(stmts):
         s = st["s"]
         if s == "def":
             lines += def_src(f"f{st['slot']}", st["gen"], st["spec"])
+        elif s == "udef":
+            g = st["gen"]
+            lines.append(f"def dk_{g}(func):")
+            lines += ["    " + ln for ln in dec_lines(st["spec"], g, str(g))]
+            lines += ["    def wrapper(**kw):", "        return func(**kw)"]
+            if st.get("store") == "l":
+                lines.append("    lst.append(wrapper)")
+            elif st.get("store") == "d":
+                lines.append(f"    dct['k{st['key']}'] = wrapper")
+            lines += ["    return wrapper", f"@dk_{g}", f"def f{st['slot']}(**kw):", "    " + BODY.format(g=g)]
         elif s == "del":
             lines.append(f"del f{st['slot']}")
         elif s == "alias":
@@ -130,7 +142,11 @@ def def_lines(src):
     for node in _ast.parse(src).body:
         if not isinstance(node, _ast.FunctionDef):
             continue
-        if node.name.startswith("mk_"):
+        if node.name.startswith("dk_"):
+            for inner in node.body:
+                if isinstance(inner, _ast.FunctionDef):
+                    out[inner.lineno] = int(node.name[3:])
+        elif node.name.startswith("mk_"):
             for inner in node.body:
                 if isinstance(inner, _ast.FunctionDef):
                     out[inner.lineno] = int(node.name[3:])
